@@ -237,7 +237,10 @@ def cli_batch(res):
         open(os.path.join(d, 'inc.lua'), 'wb').write(b'included=12345\n')
         for text in (b'-- my game\n--#include inc.lua\nx=1\n', b'-- t\n-- see #include inc.lua for more\ny=2\n',
                      b'//#include inc.lua\n// b\nz=3\n', b'--[[ #include inc.lua ]]\n-- a\nz=3\n',
-                     b'-- t\n-- a\nx=1 -- #include inc.lua\ny=2\n'):
+                     b'-- t\n-- a\nx=1 -- #include inc.lua\ny=2\n',
+                     # header comments whose lines end in blanks / TABs (the comment's text runs to the line end)
+                     b'-- my game  \n-- by me\t\nx=1\n', b'// title \n//\t \nx=1\n', b'--[[ a  \n  b\t\n]]\n-- c \ny=2\n',
+                     b'--[=[ a \n \n\t\nb ]=] \n--   \nz=3\n'):
             shapes.append((None, text))
         for n, (seq, fol) in enumerate(shapes):
             src = fol if seq is None else header_source(seq, fol, BODIES[n % 3])
